@@ -3,12 +3,18 @@
      Part B  wire primitives: varint, zig-zag, fixed64, field framing with arbitrary trailing bytes
      Part C  the streaming writer read back by the parser: parse (stream m) = Some m
      Part D  the dense store model (Store/Dense.v) against to_proto_dense
-   Axioms: none for Parts A, B (integers); Parts C, D mention Flocq floats and use
-   [f64_of_bits (bits_of_f64 v) = v], hence the real-number axioms Flocq pulls in. *)
+     Part E  the proto.Marshal form (packed doubles, zero scalars omitted) read back by the parser
+     Part F  end to end through the bytes
+   Axioms: none for the integer / framing lemmas of Part B and for the statements of Part A that do
+   not mention floats; every statement mentioning Flocq floats (f64, q2f, f2q, rnd64) reports the four
+   real-number axioms of the standard library that Flocq's definitions themselves depend on.
+   Imported facts about floats: f64_of_bits (bits_of_f64 v) = v and bits_of_f64 v < 2^64
+   (Codec/VarfloatProofs.v), rnd64 (f2q x) = f2q x (Base/F64Proofs.v). *)
 From Coq Require Import Bool NArith ZArith List Lia Permutation ZifyN ZifyNat ZifyBool.
 From SK Require Import Base.Prelude Base.F64 Codec.Codec Spec.Bins Spec.BinsProofs Wire.Proto.
 From SK Require Codec.CodecProofs Codec.Varfloat Codec.VarfloatProofs.
 From SK Require Store.Dense Store.DenseProofs.
+From SK Require Base.F64Proofs.
 Import ListNotations.
 Local Open Scope Z_scope.
 
@@ -30,6 +36,18 @@ Lemma f64_weights_get b j : f64_weights b -> rnd64 (get b j) = get b j.
 Proof.
   intros H. induction b as [|[k w] tl IH]; [exact rnd64_w0|].
   inversion H as [|x l Hx Hl]; subst. cbn [get]. destruct (j =? k); [exact Hx|exact (IH Hl)].
+Qed.
+
+(* the values of float64s are float64 values (Base/F64Proofs.v: rnd64 (f2q x) = f2q x) *)
+Lemma f64_weights_floats l : Forall (fun kw => exists x : f64, snd kw = f2q x) l -> f64_weights l.
+Proof.
+  intros H. unfold f64_weights. eapply Forall_impl; [|exact H].
+  intros kw [x Hx]. rewrite Hx. apply F64Proofs.rnd64_f2q.
+Qed.
+Lemma f64_weights_entries (lf : list (Z * f64)) : f64_weights (entries_content lf).
+Proof.
+  apply f64_weights_floats. unfold entries_content. apply Forall_forall. intros kw Hin.
+  apply in_map_iff in Hin. destruct Hin as [kv [<- _]]. exists (snd kv). reflexivity.
 Qed.
 
 (* ---- the content of the two ToProto forms ---- *)
@@ -201,6 +219,13 @@ Proof.
   unfold entries_content. apply Permutation_map. exact Hperm.
 Qed.
 
+(* stated on the floats of the message: reading any message with non-negative counts is merging the
+   canonical form of its content (weights cross exactly: the only arithmetic is the merge) *)
+Theorem merge_with_proto_canon r p :
+  wf r = true -> pos r -> pb_nonneg p ->
+  merge_with_proto r p = bmerge r (bins_of_list (store_content p)).
+Proof. intros Hr Hpr Hn. unfold merge_with_proto. apply bmerge_list_canon; assumption. Qed.
+
 (* ---- C09_mixed_counts_add ---- *)
 Theorem mixed_counts_add b p :
   merge_with_proto b p =
@@ -278,6 +303,23 @@ Arguments pb_dec_varint_loop : simpl never.
 Arguments pb_take_loop : simpl never.
 Arguments pb_fields_loop : simpl never.
 Arguments pb_dec_packed_loop : simpl never.
+
+(* ---- the tail-recursive helpers are the usual functions ---- *)
+Lemma pb_len_acc_eq l : forall acc, pb_len_acc l acc = (acc + length l)%nat.
+Proof. induction l as [|x l IH]; intros acc; cbn [pb_len_acc length]; [lia|]. rewrite IH. lia. Qed.
+Lemma pb_length_eq l : pb_length l = length l.
+Proof. unfold pb_length. rewrite pb_len_acc_eq. reflexivity. Qed.
+Lemma pb_nlen_acc_eq l : forall acc, pb_nlen_acc l acc = acc + N.of_nat (length l).
+Proof. induction l as [|x l IH]; intros acc; cbn [pb_nlen_acc length]; [lia|]. rewrite IH. lia. Qed.
+Lemma pb_nlength_eq l : pb_nlength l = N.of_nat (length l).
+Proof. unfold pb_nlength. rewrite pb_nlen_acc_eq. lia. Qed.
+Lemma pb_rev_eq {T : Type} (l : list T) : pb_rev l = rev l.
+Proof. unfold pb_rev. rewrite rev_append_rev. apply app_nil_r. Qed.
+Lemma pb_app_eq l m : pb_app l m = l ++ m.
+Proof. unfold pb_app. rewrite rev_append_rev, pb_rev_eq, rev_involutive. reflexivity. Qed.
+Lemma pb_enc_len_eq fld p :
+  pb_enc_len fld p = pb_enc_tag fld WT_LEN ++ pb_enc_varint (N.of_nat (length p)) ++ p.
+Proof. unfold pb_enc_len. rewrite pb_nlength_eq. reflexivity. Qed.
 
 (* ---- varint ---- *)
 Lemma enc_varint_0 v : pb_enc_varint_loop 0 v = [v].
@@ -507,7 +549,7 @@ Proof. intros Hf. apply dec_field_fixed64; [exact Hf|apply bits_of_f64_lt]. Qed.
 
 (* ---- length-delimited ---- *)
 Lemma take_loop_0 l acc : pb_take_loop l 0 acc = Some (rev acc, l).
-Proof. destruct l; reflexivity. Qed.
+Proof. rewrite <- pb_rev_eq. destruct l; reflexivity. Qed.
 Lemma take_loop_cons x tl n acc : n <> 0 -> pb_take_loop (x :: tl) n acc = pb_take_loop tl (N.pred n) (x :: acc).
 Proof. intros H. destruct n; [contradiction|reflexivity]. Qed.
 Lemma take_loop_app p : forall rest acc,
@@ -533,7 +575,7 @@ Theorem dec_field_len fld p rest :
   field_ok fld -> N.of_nat (length p) < W64 ->
   pb_dec_field (pb_enc_len fld p ++ rest) = Some (fld, PLen p, rest).
 Proof.
-  intros Hf Hp. unfold pb_enc_len. rewrite <- !app_assoc.
+  intros Hf Hp. rewrite pb_enc_len_eq. rewrite <- !app_assoc.
   rewrite dec_field_tag by (try exact Hf; unfold WT_LEN; lia).
   unfold WT_LEN. rewrite varint_roundtrip by exact Hp. rewrite take_app. reflexivity.
 Qed.
@@ -542,7 +584,7 @@ Lemma enc_tag_length fld wt : (1 <= length (pb_enc_tag fld wt) <= 10)%nat.
 Proof. apply enc_varint_length. Qed.
 Lemma enc_len_length fld p : (2 + length p <= length (pb_enc_len fld p) <= 20 + length p)%nat.
 Proof.
-  unfold pb_enc_len. rewrite !app_length.
+  rewrite pb_enc_len_eq. rewrite !app_length.
   pose proof (enc_tag_length fld WT_LEN). pose proof (enc_varint_length (N.of_nat (length p))). lia.
 Qed.
 
@@ -602,7 +644,7 @@ Proof.
 Qed.
 Lemma fold_ops ops a :
   Forall P ops -> pb_fold_fields step (concat (map enc ops)) a = Some (fold_left app_op ops a).
-Proof. intros HP. unfold pb_fold_fields. apply fold_ops_loop; [exact HP|lia]. Qed.
+Proof. intros HP. unfold pb_fold_fields. rewrite pb_length_eq. apply fold_ops_loop; [exact HP|lia]. Qed.
 End FoldOps.
 
 Lemma field_ok_small fld : 1 <= fld <= 15 -> field_ok fld.
@@ -735,7 +777,7 @@ Proof.
   unfold store_ops_of. rewrite !fold_left_app, fold_bins, fold_counts.
   destruct (store_writes_offset p); cbn [fold_left store_apply sa_bins sa_counts sa_off];
     unfold store_finish; cbn [sa_bins sa_counts sa_off];
-    rewrite !rev_app_distr, !rev_involutive; reflexivity.
+    rewrite !pb_rev_eq, !rev_app_distr, !rev_involutive; reflexivity.
 Qed.
 Lemma store_result p : store_finish (fold_left store_apply (store_ops_of p) store_acc0) = p.
 Proof.
@@ -916,7 +958,7 @@ Definition sketch_ops_of (s : pb_sketch) : list sketch_op :=
   opt_list KMapping (ps_mapping s) ++ [KZero (ps_zero s)] ++ opt_list KNeg (ps_neg s) ++ opt_list KPos (ps_pos s).
 Lemma stream_sketch_ops s : stream_sketch s = concat (map enc_sketch_op (sketch_ops_of s)).
 Proof.
-  destruct s as [[m|] [p|] [n|] z]; unfold stream_sketch, sketch_ops_of;
+  destruct s as [[m|] [p|] [n|] z]; unfold stream_sketch, sketch_ops_of; rewrite !pb_app_eq;
     cbn [ps_mapping ps_pos ps_neg ps_zero opt_list stream_opt app map concat enc_sketch_op];
     rewrite ?app_nil_r, <- ?app_assoc; reflexivity.
 Qed.
@@ -980,4 +1022,322 @@ Proof.
   intros I Hf Hr Hpr. destruct (dense_to_proto s I) as [r [E1 E2]]. exists r. split; [exact E1|].
   rewrite E2. pose proof (DenseProofs.dabs_wf s) as Hwf. pose proof (posb_pos _ (DenseProofs.dabs_pos s I)) as Hp.
   split; [apply proto_roundtrip_dense|apply merge_dense_into]; assumption.
+Qed.
+
+(* ================================================================== *)
+(** * Part E: the proto.Marshal form                                   *)
+(* ================================================================== *)
+Lemma packed_loop_nil fuel acc : pb_dec_packed_loop fuel [] acc = Some acc.
+Proof. destruct fuel; reflexivity. Qed.
+Lemma packed_loop_step f v rest acc :
+  pb_dec_packed_loop (S f) (pb_enc_double v ++ rest) acc = pb_dec_packed_loop f rest (v :: acc).
+Proof.
+  pose proof (double_roundtrip v rest) as H.
+  destruct (pb_enc_double v ++ rest) as [|b l] eqn:E.
+  - apply (f_equal (@length byte)) in E. rewrite app_length, enc_double_length in E. discriminate.
+  - change (pb_dec_packed_loop (S f) (b :: l) acc)
+      with (match pb_dec_double (b :: l) with
+            | Some (v0, r) => pb_dec_packed_loop f r (v0 :: acc)
+            | None => None
+            end).
+    rewrite H. reflexivity.
+Qed.
+Lemma packed_length l : length (concat (map pb_enc_double l)) = (8 * length l)%nat.
+Proof.
+  induction l as [|v l IH]; [reflexivity|]. cbn [map concat length].
+  rewrite app_length, enc_double_length, IH. lia.
+Qed.
+Lemma packed_loop_all : forall l acc fuel,
+  (8 * length l <= fuel)%nat ->
+  pb_dec_packed_loop fuel (concat (map pb_enc_double l)) acc = Some (rev l ++ acc).
+Proof.
+  induction l as [|v l IH]; intros acc fuel Hf.
+  - apply packed_loop_nil.
+  - cbn [map concat length] in *. destruct fuel as [|fuel]; [lia|].
+    rewrite packed_loop_step, IH by lia. cbn [rev]. rewrite <- app_assoc. reflexivity.
+Qed.
+Theorem packed_roundtrip l acc : pb_dec_packed (concat (map pb_enc_double l)) acc = Some (rev l ++ acc).
+Proof. unfold pb_dec_packed. rewrite pb_length_eq. apply packed_loop_all. rewrite packed_length. lia. Qed.
+
+(* ---- Store ---- *)
+Inductive mstore_op := MOp (op : store_op) | MPacked (l : list f64).
+Definition enc_mstore_op (op : mstore_op) : list byte :=
+  match op with
+  | MOp op => stream_store_op op
+  | MPacked l => pb_enc_len 2 (concat (map pb_enc_double l))
+  end.
+Definition mstore_apply (a : store_acc) (op : mstore_op) : store_acc :=
+  match op with
+  | MOp op => store_apply a op
+  | MPacked l => {| sa_bins := sa_bins a; sa_counts := rev l ++ sa_counts a; sa_off := sa_off a |}
+  end.
+Definition mstore_op_ok (op : mstore_op) : Prop :=
+  match op with MOp op => store_op_ok op | MPacked l => N.of_nat (length l) < 2147483648 end.
+
+Lemma mstore_step_ok op a rest : mstore_op_ok op ->
+  enc_mstore_op op <> [] /\
+  exists fld val, pb_dec_field (enc_mstore_op op ++ rest) = Some (fld, val, rest) /\
+                  store_step a fld val = Some (mstore_apply a op).
+Proof.
+  destruct op as [op|l]; intros H; cbn [enc_mstore_op mstore_op_ok mstore_apply] in *.
+  - apply store_step_ok. exact H.
+  - split; [unfold pb_enc_len; apply app_nonnil_l, enc_varint_nonnil|].
+    exists 2, (PLen (concat (map pb_enc_double l))). split.
+    + apply dec_field_len; [apply field_ok_small; lia|]. rewrite packed_length. unfold W64. lia.
+    + unfold store_step. cbv beta iota. rewrite packed_roundtrip. reflexivity.
+Qed.
+
+Definition mstore_ops_of (p : pb_store) : list mstore_op :=
+  map (fun kv => MOp (OpBin (fst kv) (snd kv))) (bin_counts p)
+  ++ (match contiguous_counts p with [] => [] | _ :: _ => [MPacked (contiguous_counts p)] end)
+  ++ (if (contiguous_offset p =? 0)%Z then [] else [MOp (OpOffset (contiguous_offset p))]).
+Lemma concat_map_app {T : Type} (f : T -> list byte) l1 l2 :
+  concat (map f (l1 ++ l2)) = concat (map f l1) ++ concat (map f l2).
+Proof. rewrite map_app, concat_app. reflexivity. Qed.
+Lemma marshal_store_ops p : marshal_store p = concat (map enc_mstore_op (mstore_ops_of p)).
+Proof.
+  unfold marshal_store, mstore_ops_of. rewrite !pb_app_eq, !concat_map_app, map_map. f_equal. f_equal.
+  - destruct (contiguous_counts p); cbn [map concat enc_mstore_op]; rewrite ?app_nil_r; reflexivity.
+  - destruct (contiguous_offset p =? 0)%Z; cbn [map concat enc_mstore_op stream_store_op];
+      rewrite ?app_nil_r; reflexivity.
+Qed.
+Lemma mstore_ops_of_ok p : store_ok p -> store_small p -> Forall mstore_op_ok (mstore_ops_of p).
+Proof.
+  intros [Hk Ho] [_ Hc]. unfold mstore_ops_of. apply Forall_app. split; [|apply Forall_app; split].
+  - apply Forall_forall. intros op Hin. apply in_map_iff in Hin. destruct Hin as [kv [<- Hin]].
+    cbn [mstore_op_ok store_op_ok]. rewrite Forall_forall in Hk. exact (Hk kv Hin).
+  - destruct (contiguous_counts p) eqn:E; [constructor|]. constructor; [|constructor].
+    cbn [mstore_op_ok]. exact Hc.
+  - destruct (contiguous_offset p =? 0)%Z; [constructor|]. constructor; [exact Ho|constructor].
+Qed.
+Lemma fold_mbins l : forall a,
+  fold_left mstore_apply (map (fun kv => MOp (OpBin (fst kv) (snd kv))) l) a =
+  {| sa_bins := rev l ++ sa_bins a; sa_counts := sa_counts a; sa_off := sa_off a |}.
+Proof.
+  induction l as [|[k v] l IH]; intros a; [destruct a; reflexivity|].
+  cbn [map fold_left fst snd]. rewrite IH. cbn [mstore_apply store_apply sa_bins sa_counts sa_off rev].
+  rewrite <- app_assoc. reflexivity.
+Qed.
+Lemma mstore_result p : store_finish (fold_left mstore_apply (mstore_ops_of p) store_acc0) = p.
+Proof.
+  unfold mstore_ops_of. rewrite !fold_left_app, fold_mbins.
+  destruct p as [bc cc o]. cbn [bin_counts contiguous_counts contiguous_offset store_acc0 sa_bins sa_counts sa_off].
+  rewrite app_nil_r.
+  destruct cc as [|c cc]; destruct (Z.eqb_spec o 0) as [->|Hn];
+    cbn [fold_left mstore_apply store_apply sa_bins sa_counts sa_off]; unfold store_finish;
+    cbn [sa_bins sa_counts sa_off]; rewrite !pb_rev_eq, ?app_nil_r, ?rev_involutive; reflexivity.
+Qed.
+Theorem parse_store_acc_marshal a p :
+  store_ok p -> store_small p ->
+  parse_store_acc a (marshal_store p) = Some (fold_left mstore_apply (mstore_ops_of p) a).
+Proof.
+  intros H1 H2. unfold parse_store_acc. rewrite marshal_store_ops.
+  apply (fold_ops store_step enc_mstore_op mstore_apply mstore_op_ok); [|apply mstore_ops_of_ok; assumption].
+  intros op a' rest. apply mstore_step_ok.
+Qed.
+Theorem parse_store_marshal p : store_ok p -> store_small p -> parse_store (marshal_store p) = Some p.
+Proof.
+  intros H1 H2. unfold parse_store. rewrite (parse_store_acc_marshal _ p H1 H2).
+  cbn [option_map]. rewrite mstore_result. reflexivity.
+Qed.
+
+Lemma marshal_store_length p : store_small p -> N.of_nat (length (marshal_store p)) < W64.
+Proof.
+  intros [Hb Hc]. unfold marshal_store. rewrite !pb_app_eq, !app_length.
+  assert (He : forall l : list (Z * f64),
+            (length (concat (map (fun kv => pb_enc_len 1 (stream_entry (fst kv) (snd kv))) l)) <= 60 * length l)%nat).
+  { induction l as [|kv l IH]; [cbn; lia|]. cbn [map concat length]. rewrite app_length.
+    pose proof (stream_store_op_length (OpBin (fst kv) (snd kv))) as H. cbn [stream_store_op] in H. lia. }
+  specialize (He (bin_counts p)).
+  assert (Hp : (length (match contiguous_counts p with
+                        | [] => []
+                        | _ :: _ => pb_enc_len 2 (concat (map pb_enc_double (contiguous_counts p)))
+                        end) <= 20 + 8 * length (contiguous_counts p))%nat).
+  { destruct (contiguous_counts p) eqn:E; [cbn [length]; lia|]. rewrite <- E.
+    pose proof (enc_len_length 2 (concat (map pb_enc_double (contiguous_counts p)))) as H.
+    rewrite packed_length in H. lia. }
+  assert (Ho : (length (if (contiguous_offset p =? 0)%Z then []
+                        else pb_enc_tag 3 WT_VARINT ++ pb_enc_varint (pb_zigzag (contiguous_offset p))) <= 20)%nat).
+  { destruct (contiguous_offset p =? 0)%Z; [cbn [length]; lia|]. rewrite app_length.
+    pose proof (enc_tag_length 3 WT_VARINT). pose proof (enc_varint_length (pb_zigzag (contiguous_offset p))). lia. }
+  unfold W64. lia.
+Qed.
+
+(* ---- IndexMapping ---- *)
+Definition mapping_mops_of (m : pb_mapping) : list mapping_op :=
+  (if bits_of_f64 (pm_gamma m) =? 0 then [] else [MGamma (pm_gamma m)])
+  ++ (if bits_of_f64 (pm_offset m) =? 0 then [] else [MOffset (pm_offset m)])
+  ++ (if pm_interp m =? 0 then [] else [MInterp (pm_interp m)]).
+Lemma marshal_mapping_ops m : marshal_mapping m = concat (map enc_mapping_op (mapping_mops_of m)).
+Proof.
+  unfold marshal_mapping, mapping_mops_of, marshal_double_nz.
+  destruct (bits_of_f64 (pm_gamma m) =? 0); destruct (bits_of_f64 (pm_offset m) =? 0); destruct (pm_interp m =? 0);
+    cbn [app map concat enc_mapping_op]; rewrite ?app_nil_r, <- ?app_assoc; reflexivity.
+Qed.
+Lemma mapping_mops_of_ok m : mapping_ok m -> Forall mapping_op_ok (mapping_mops_of m).
+Proof.
+  intros H. unfold mapping_mops_of. repeat (apply Forall_app; split).
+  - destruct (_ =? 0); [constructor|constructor; [exact I|constructor]].
+  - destruct (_ =? 0); [constructor|constructor; [exact I|constructor]].
+  - destruct (_ =? 0); [constructor|constructor; [exact H|constructor]].
+Qed.
+Lemma f64_bits0 (v : f64) : bits_of_f64 v = 0 -> v = f64_zero.
+Proof. intros H. rewrite <- (f64_of_bits_of_f64 v), H. reflexivity. Qed.
+Lemma mapping_mresult m : fold_left mapping_apply (mapping_mops_of m) pb_mapping_default = m.
+Proof.
+  destruct m as [g o i]. unfold mapping_mops_of. cbn [pm_gamma pm_offset pm_interp].
+  destruct (N.eqb_spec (bits_of_f64 g) 0) as [Eg|Eg]; destruct (N.eqb_spec (bits_of_f64 o) 0) as [Eo|Eo];
+    destruct (N.eqb_spec i 0) as [Ei|Ei];
+    cbn [app fold_left mapping_apply pb_mapping_default pm_gamma pm_offset pm_interp];
+    rewrite ?(f64_bits0 g Eg), ?(f64_bits0 o Eo), ?Ei; reflexivity.
+Qed.
+Theorem parse_mapping_acc_marshal m0 m :
+  mapping_ok m ->
+  parse_mapping_acc m0 (marshal_mapping m) = Some (fold_left mapping_apply (mapping_mops_of m) m0).
+Proof.
+  intros H. unfold parse_mapping_acc. rewrite marshal_mapping_ops.
+  apply (fold_ops mapping_step enc_mapping_op mapping_apply mapping_op_ok); [|apply mapping_mops_of_ok; exact H].
+  intros op a rest. apply mapping_step_ok.
+Qed.
+Theorem parse_mapping_marshal m : mapping_ok m -> parse_mapping (marshal_mapping m) = Some m.
+Proof.
+  intros H. unfold parse_mapping. rewrite (parse_mapping_acc_marshal _ m H), mapping_mresult. reflexivity.
+Qed.
+Lemma marshal_mapping_length m : (length (marshal_mapping m) <= 56)%nat.
+Proof.
+  unfold marshal_mapping, marshal_double_nz.
+  pose proof (enc_tag_length 1 WT_I64). pose proof (enc_tag_length 2 WT_I64).
+  pose proof (enc_tag_length 3 WT_VARINT). pose proof (enc_varint_length (pm_interp m)).
+  destruct (_ =? 0); destruct (_ =? 0); destruct (_ =? 0);
+    rewrite ?app_length, ?enc_double_length; cbn [length]; lia.
+Qed.
+
+(* ---- DDSketch ---- *)
+Inductive sketch_mop := KMMapping (m : pb_mapping) | KMZero (v : f64) | KMNeg (p : pb_store) | KMPos (p : pb_store).
+Definition enc_sketch_mop (op : sketch_mop) : list byte :=
+  match op with
+  | KMMapping m => pb_enc_len 1 (marshal_mapping m)
+  | KMZero v => pb_enc_tag 4 WT_I64 ++ pb_enc_double v
+  | KMNeg p => pb_enc_len 3 (marshal_store p)
+  | KMPos p => pb_enc_len 2 (marshal_store p)
+  end.
+Definition sketch_mapply (a : sketch_acc) (op : sketch_mop) : sketch_acc :=
+  match op with
+  | KMMapping m =>
+    {| ka_mapping := Some (fold_left mapping_apply (mapping_mops_of m) (or_default pb_mapping_default (ka_mapping a)));
+       ka_pos := ka_pos a; ka_neg := ka_neg a; ka_zero := ka_zero a |}
+  | KMZero v => {| ka_mapping := ka_mapping a; ka_pos := ka_pos a; ka_neg := ka_neg a; ka_zero := v |}
+  | KMNeg p =>
+    {| ka_mapping := ka_mapping a; ka_pos := ka_pos a;
+       ka_neg := Some (fold_left mstore_apply (mstore_ops_of p) (or_default store_acc0 (ka_neg a)));
+       ka_zero := ka_zero a |}
+  | KMPos p =>
+    {| ka_mapping := ka_mapping a;
+       ka_pos := Some (fold_left mstore_apply (mstore_ops_of p) (or_default store_acc0 (ka_pos a)));
+       ka_neg := ka_neg a; ka_zero := ka_zero a |}
+  end.
+Definition sketch_mop_ok (op : sketch_mop) : Prop :=
+  match op with
+  | KMMapping m => mapping_ok m
+  | KMZero _ => True
+  | KMNeg p | KMPos p => store_ok p /\ store_small p
+  end.
+Lemma sketch_mstep_ok op a rest : sketch_mop_ok op ->
+  enc_sketch_mop op <> [] /\
+  exists fld val, pb_dec_field (enc_sketch_mop op ++ rest) = Some (fld, val, rest) /\
+                  sketch_step a fld val = Some (sketch_mapply a op).
+Proof.
+  destruct op as [m|v|p|p]; intros H; cbn [enc_sketch_mop sketch_mop_ok] in *.
+  - split; [unfold pb_enc_len; apply app_nonnil_l, enc_varint_nonnil|].
+    exists 1, (PLen (marshal_mapping m)). split.
+    + apply dec_field_len; [apply field_ok_small; lia|].
+      pose proof (marshal_mapping_length m). unfold W64. lia.
+    + unfold sketch_step. cbv beta iota. rewrite (parse_mapping_acc_marshal _ m H). reflexivity.
+  - split; [apply app_nonnil_l, enc_varint_nonnil|].
+    exists 4, (PI64 (bits_of_f64 v)). split.
+    + rewrite <- app_assoc. apply dec_field_double. apply field_ok_small; lia.
+    + unfold sketch_step. cbv beta iota. rewrite f64_of_bits_of_f64. reflexivity.
+  - destruct H as [Hok Hsm]. split; [unfold pb_enc_len; apply app_nonnil_l, enc_varint_nonnil|].
+    exists 3, (PLen (marshal_store p)). split.
+    + apply dec_field_len; [apply field_ok_small; lia|apply marshal_store_length; exact Hsm].
+    + unfold sketch_step. cbv beta iota. rewrite (parse_store_acc_marshal _ p Hok Hsm). reflexivity.
+  - destruct H as [Hok Hsm]. split; [unfold pb_enc_len; apply app_nonnil_l, enc_varint_nonnil|].
+    exists 2, (PLen (marshal_store p)). split.
+    + apply dec_field_len; [apply field_ok_small; lia|apply marshal_store_length; exact Hsm].
+    + unfold sketch_step. cbv beta iota. rewrite (parse_store_acc_marshal _ p Hok Hsm). reflexivity.
+Qed.
+Definition sketch_mops_of (s : pb_sketch) : list sketch_mop :=
+  opt_list KMMapping (ps_mapping s) ++ opt_list KMPos (ps_pos s) ++ opt_list KMNeg (ps_neg s)
+  ++ (if bits_of_f64 (ps_zero s) =? 0 then [] else [KMZero (ps_zero s)]).
+Lemma marshal_sketch_ops s : marshal_sketch s = concat (map enc_sketch_mop (sketch_mops_of s)).
+Proof.
+  destruct s as [[m|] [p|] [n|] z]; unfold marshal_sketch, sketch_mops_of, marshal_double_nz; rewrite !pb_app_eq;
+    cbn [ps_mapping ps_pos ps_neg ps_zero opt_list stream_opt app];
+    destruct (bits_of_f64 z =? 0); cbn [app map concat enc_sketch_mop];
+    rewrite ?app_nil_r, <- ?app_assoc; reflexivity.
+Qed.
+Lemma sketch_mops_of_ok s : sketch_ok s -> Forall sketch_mop_ok (sketch_mops_of s).
+Proof.
+  intros [Hm [Hp Hn]]. destruct s as [[m|] [p|] [n|] z]; unfold sketch_mops_of;
+    cbn [ps_mapping ps_pos ps_neg ps_zero opt_list app opt_ok] in *;
+    destruct (bits_of_f64 z =? 0); cbn [app];
+    repeat (apply Forall_cons; [first [exact Hm|exact Hp|exact Hn|exact I]|]); apply Forall_nil.
+Qed.
+Lemma sketch_mresult s : sketch_finish (fold_left sketch_mapply (sketch_mops_of s) sketch_acc0) = s.
+Proof.
+  destruct s as [[m|] [p|] [n|] z]; unfold sketch_mops_of, sketch_finish;
+    cbn [ps_mapping ps_pos ps_neg ps_zero opt_list app];
+    destruct (N.eqb_spec (bits_of_f64 z) 0) as [Ez|Ez];
+    cbn [app fold_left sketch_mapply sketch_acc0 ka_mapping ka_pos ka_neg ka_zero or_default option_map];
+    rewrite ?mapping_mresult, ?mstore_result, ?(f64_bits0 z Ez); reflexivity.
+Qed.
+Theorem parse_sketch_marshal s : sketch_ok s -> parse_sketch (marshal_sketch s) = Some s.
+Proof.
+  intros H. unfold parse_sketch. rewrite marshal_sketch_ops.
+  rewrite (fold_ops sketch_step enc_sketch_mop sketch_mapply sketch_mop_ok).
+  - cbn [option_map]. rewrite sketch_mresult. reflexivity.
+  - intros op a rest. apply sketch_mstep_ok.
+  - apply sketch_mops_of_ok. exact H.
+Qed.
+
+(* ================================================================== *)
+(** * Part F: end to end, through the bytes                            *)
+(* ================================================================== *)
+Definition keys_ok (l : list (Z * W)) : Prop := Forall (fun kw => idx_ok (fst kw)) l.
+
+Lemma store_ok_sparse l : keys_ok l -> store_ok (to_proto_sparse l).
+Proof.
+  intros H. split; cbn [to_proto_sparse bin_counts contiguous_offset].
+  - apply Forall_forall. intros kv Hin. apply in_map_iff in Hin. destruct Hin as [kw [<- Hin]].
+    cbn [fst]. unfold keys_ok in H. rewrite Forall_forall in H. exact (H kw Hin).
+  - unfold idx_ok, MinInt32, MaxInt32. lia.
+Qed.
+Lemma store_ok_dense (b : bins) : keys_ok b -> store_ok (to_proto_dense b).
+Proof.
+  intros H. unfold to_proto_dense. destruct b as [|[k w] tl].
+  - split; [constructor|]. cbn. unfold idx_ok, MinInt32, MaxInt32. lia.
+  - cbn [min_key]. destruct (max_key ((k, w) :: tl)) as [mx|].
+    + split; [constructor|]. cbn [contiguous_offset]. inversion H; subst. assumption.
+    + split; [constructor|]. cbn. unfold idx_ok, MinInt32, MaxInt32. lia.
+Qed.
+Lemma keys_ok_perm l l' : Permutation l l' -> keys_ok l -> keys_ok l'.
+Proof. intros Hp H. unfold keys_ok in *. eapply Permutation_Forall; eassumption. Qed.
+
+(* ToProto, the streaming writer (or proto.Marshal), the parser, MergeWithProto: the receiver ends up
+   with the merge, for both store forms and both wire forms *)
+Theorem wire_roundtrip_sparse r b l :
+  wf r = true -> pos r -> wf b = true -> pos b -> f64_weights b -> keys_ok b -> Permutation b l ->
+  exists p, parse_store (stream_store (to_proto_sparse l)) = Some p /\ merge_with_proto r p = bmerge r b.
+Proof.
+  intros Hr Hpr Hb Hpb Hf Hk Hperm. exists (to_proto_sparse l). split.
+  - apply parse_store_stream, store_ok_sparse. eapply keys_ok_perm; eassumption.
+  - apply merge_sparse_into; assumption.
+Qed.
+Theorem wire_roundtrip_dense r b :
+  wf r = true -> pos r -> wf b = true -> pos b -> f64_weights b -> keys_ok b ->
+  exists p, parse_store (stream_store (to_proto_dense b)) = Some p /\ merge_with_proto r p = bmerge r b.
+Proof.
+  intros Hr Hpr Hb Hpb Hf Hk. exists (to_proto_dense b). split.
+  - apply parse_store_stream, store_ok_dense. exact Hk.
+  - apply merge_dense_into; assumption.
 Qed.
